@@ -800,6 +800,111 @@ func checkFinderRatio(raw json.RawMessage) error {
 	return nil
 }
 
+// C39Case: a Code 39 row (runs taken from the library's own clean symbol, module width Mult) whose
+// data characters have some runs widened by a pixel or two, then enlarged by Scale. A character is
+// nine runs of which the three widest are the wide ones; the classification is unambiguous when the
+// third widest is strictly wider than the fourth, and upstream accepts it when no wide run is 1.5
+// times the average wide run or more (2*w < sum of the three). Whenever every data character of the
+// distorted row still classifies to its own narrow/wide pattern by that rule, the reader must return
+// the text - at scale 1 and at every integer multiple alike.
+type C39Case struct {
+	Text   string   `json:"text"`
+	Mult   int      `json:"mult"`
+	Deltas [][3]int `json:"deltas"` // (data character index, run 0..8, pixels added)
+	Scale  int      `json:"scale"`
+}
+
+func c39Runs(c C39Case) (runs []int, demand bool, why string, err error) {
+	bm, e := oned.NewCode39Writer().Encode(c.Text, gozxing.BarcodeFormat_CODE_39, 0, 1, map[gozxing.EncodeHintType]interface{}{gozxing.EncodeHintType_MARGIN: 0})
+	if e != nil {
+		return nil, false, "", fmt.Errorf("hx: writer: %v", e)
+	}
+	cur, n := true, 0
+	for x := 0; x < bm.GetWidth(); x++ {
+		if bm.Get(x, 0) == cur {
+			n++
+		} else {
+			runs = append(runs, n)
+			cur, n = !cur, 1
+		}
+	}
+	runs = append(runs, n)
+	nch := len(c.Text) + 2
+	if len(runs) != 10*nch-1 {
+		return nil, false, "", fmt.Errorf("hx: %d runs for %d characters", len(runs), nch)
+	}
+	clean := append([]int(nil), runs...)
+	for i := range runs {
+		runs[i] *= c.Mult
+	}
+	for _, d := range c.Deltas {
+		if d[0] < 0 || d[0] >= len(c.Text) || d[1] < 0 || d[1] > 8 || d[2] < 1 || d[2] > 3 {
+			return nil, false, "", fmt.Errorf("hx: bad delta %v", d)
+		}
+		runs[10*(d[0]+1)+d[1]] += d[2]
+	}
+	demand = true
+	for j := 1; j <= len(c.Text); j++ {
+		g := runs[10*j : 10*j+9]
+		srt := append([]int(nil), g...)
+		sort.Sort(sort.Reverse(sort.IntSlice(srt)))
+		if srt[2] <= srt[3] {
+			return runs, false, "ambiguous", nil
+		}
+		if 2*srt[0] >= srt[0]+srt[1]+srt[2] {
+			return runs, false, "wide_run_too_wide", nil
+		}
+		for i := 0; i < 9; i++ {
+			if (g[i] > srt[3]) != (clean[10*j+i] > 1) {
+				return runs, false, "other_pattern", nil
+			}
+		}
+	}
+	return runs, demand, "", nil
+}
+
+func checkC39(raw json.RawMessage) error {
+	var c C39Case
+	if err := json.Unmarshal(raw, &c); err != nil || c.Mult < 1 || c.Scale < 1 || len(c.Text) == 0 {
+		return fmt.Errorf("hx: bad case")
+	}
+	runs, demand, _, err := c39Runs(c)
+	if err != nil {
+		return err
+	}
+	if !demand {
+		return nil
+	}
+	for _, k := range []int{1, c.Scale} {
+		var sb strings.Builder
+		sb.WriteString(strings.Repeat("0", 40*c.Mult*k))
+		for i, r := range runs {
+			ch := "1"
+			if i%2 == 1 {
+				ch = "0"
+			}
+			sb.WriteString(strings.Repeat(ch, r*k))
+		}
+		sb.WriteString(strings.Repeat("0", 40*c.Mult*k))
+		row := rowOf(sb.String())
+		var res *gozxing.Result
+		var e error
+		if pe := hx.Safe(func() error { res, e = oned.NewCode39Reader().(interface {
+			DecodeRow(int, *gozxing.BitArray, map[gozxing.DecodeHintType]interface{}) (*gozxing.Result, error)
+		}).DecodeRow(0, row, nil); return nil }); pe != nil {
+			return fmt.Errorf("Code 39 DecodeRow panicked: %v", pe)
+		}
+		desc := fmt.Sprintf("text %q, module %d px, widened runs (character, run, pixels) %v, enlarged %dx; runs before enlarging %v", c.Text, c.Mult, c.Deltas, k, runs)
+		if e != nil {
+			return fmt.Errorf("Code 39 row not read although every character keeps three unambiguous wide runs, none 1.5x the average wide run: %v [%s]", e, desc)
+		}
+		if res.GetText() != c.Text {
+			return fmt.Errorf("Code 39 row read as %q [%s]", res.GetText(), desc)
+		}
+	}
+	return nil
+}
+
 func TestCheck(t *testing.T) {
 	hx.Main(t, "C20", func(c *hx.Ctx) {
 		c.Register("record", checkRecord)
@@ -809,6 +914,7 @@ func TestCheck(t *testing.T) {
 		c.Register("digitrow", checkDigitRow)
 		c.Register("itfguard", checkGuard)
 		c.Register("finder_ratio", checkFinderRatio)
+		c.Register("code39_rows", checkC39)
 	}, func(c *hx.Ctx) {
 		// (1) RecordPattern forward / reverse, rapid rows
 		rprop := func(rev bool, sub string) func(t *rapid.T) {
@@ -883,6 +989,32 @@ func TestCheck(t *testing.T) {
 			raw, _ := json.Marshal(cs)
 			c.Note("rss_finder_ratio_scaled", fmt.Sprintf("ratio_in_range=%v;widest_ge_10x_narrowest=%v;scale>1=%v", inr, mx >= 10*mn, cs.Scale > 1), inr, hx.Hash(raw), func() any { return cs })
 			if err := c.Eval("finder_ratio", cs); err != nil {
+				t.Fatalf("%v", err)
+			}
+		})
+		c.Rapid("code39_widened_runs", c.N(2500, 40000), func(t *rapid.T) {
+			const alphabet = "0123456789ABCDEFGHIJKLMNOPQRSTUVWXYZ-. $/+%"
+			n := rapid.IntRange(1, 6).Draw(t, "len")
+			b := make([]byte, n)
+			for i := range b {
+				b[i] = alphabet[rapid.IntRange(0, len(alphabet)-1).Draw(t, "ch")]
+			}
+			cs := C39Case{Text: string(b), Mult: rapid.IntRange(1, 4).Draw(t, "mult"), Scale: rapid.IntRange(2, 5).Draw(t, "scale")}
+			nd := rapid.IntRange(0, 3).Draw(t, "ndeltas")
+			for i := 0; i < nd; i++ {
+				cs.Deltas = append(cs.Deltas, [3]int{rapid.IntRange(0, n-1).Draw(t, "dchar"), rapid.IntRange(0, 8).Draw(t, "drun"), rapid.IntRange(1, min(3, cs.Mult+1)).Draw(t, "dpx")})
+			}
+			_, demand, why, err := c39Runs(cs)
+			if err != nil {
+				t.Fatalf("%v", err)
+			}
+			cl := fmt.Sprintf("module=%d;widened=%d;demanded=%v", cs.Mult, min(nd, 2), demand)
+			if why != "" {
+				cl += ";not_demanded=" + why
+			}
+			raw, _ := json.Marshal(cs)
+			c.Note("code39_widened_runs", cl, demand && nd > 0, hx.Hash(raw), func() any { return cs })
+			if err := c.Eval("code39_rows", cs); err != nil {
 				t.Fatalf("%v", err)
 			}
 		})
